@@ -324,21 +324,55 @@ def run(prog: Program, ctx: Ctx) -> None:  # noqa: PLR0912,PLR0915
     # ------------------------------------------------------------------ R4
     ctx.rule("R4", "expressions: the writer emits every dataclass field except `parent` plus `cls`; the reader pops `cls`, instantiates that class "
                    "with the remaining keys, and re-links attribute chains left to right")
+    from sa.rules.C03 import corpus as _expr_corpus
+
     ead = prog.function("_griffe.expressions._expr_as_dict")
-    src = ast.unparse(ead.node)
-    comp = [n for n in ast.walk(ead.node) if isinstance(n, ast.DictComp)]
-    ok = len(comp) == 1 and "getfields" in unparse(comp[0].generators[0].iter) and [unparse(c) for c in comp[0].generators[0].ifs] == ["field.name != 'parent'"]
-    ctx.ob("R4", key(ead, "all-fields-but-parent"), ok, "every dataclass field except `parent` is written", where(ead))
-    ctx.ob("R4", key(ead, "cls-written"), "['cls'] = " in src and "classname" in src, "the class name is written under `cls`", where(ead))
-    ctx.ob("R4", key(ead, "sorted"), "sorted(" in src, "fields are written in sorted order (deterministic output)", where(ead))
-    fad = prog.function("_griffe.expressions._field_as_dict")
-    s2 = ast.unparse(fad.node)
-    ctx.ob("R4", key(fad, "recursive"), "isinstance(element, Expr)" in s2 and "isinstance(element, list)" in s2 and s2.count("_field_as_dict(") >= 2,
-           "nested expressions and lists of expressions are serialised recursively", where(fad))
-    s3 = ast.unparse(le.node)
-    ctx.ob("R4", key(le, "pops-cls"), "expression.pop('cls')" in s3 and "getattr(expressions," in s3, "the reader pops `cls` and looks the class up in the expressions module", where(le))
-    ctx.ob("R4", key(le, "kwargs"), "cls(**expression)" in s3, "the remaining keys are passed as keyword arguments", where(le))
-    ctx.ob("R4", key(le, "relinks-attribute-chain"), "ExprAttribute" in s3 and "value.parent = previous" in s3, "ExprAttribute values are re-linked left to right", where(le))
+    build = prog.function("_griffe.expressions._build")
+    it4 = Interp(prog, max_depth=80, max_steps=3_000_000)
+    scope4 = Obj(prog.cls(f"{M}.Module"), {"name": "m", "path": "m", "members": {}, "parent": None, "relative_filepath": "m.py", "filepath": "m.py"}, label="m")
+
+    def shape(e: object) -> object:
+        """Class and field values of an expression tree, `parent` links reduced to what they point at."""
+        if isinstance(e, Obj) and e.cls is not None:
+            out = {"<class>": e.cls.name}
+            for k_, v_ in sorted(e.attrs.items()):
+                if k_.startswith("__"):
+                    continue
+                if k_ == "parent":
+                    out[k_] = ("name " + v_.attrs.get("name", "?")) if isinstance(v_, Obj) and v_.cls is not None and v_.cls.name == "ExprName" else ("scope" if v_ is not None else None)
+                else:
+                    out[k_] = shape(v_)
+            return out
+        if isinstance(e, (list, tuple)):
+            return [shape(x) for x in e]
+        if hasattr(e, "name") and type(e).__name__ == "Sym":
+            return e.name
+        return e
+
+    n4 = 0
+    samples = [src_ for label_, src_ in _expr_corpus() if label_.startswith("node|")]
+    for src_ in samples:
+        node = ast.parse(src_, mode="eval").body
+        try:
+            it4.steps = 0
+            e1 = it4.call(build, node, scope4, parse_strings=False)
+            if isinstance(e1, str):
+                continue  # constants are stored as plain strings
+            data = it4.call(prog.lookup_method(e1.cls, "as_dict")[0], e1)
+            e2 = json.loads(json.dumps(data, default=lambda o: getattr(o, "value", str(o))), object_hook=lambda d: it4.call(jd, d))
+            before, after = shape(e1), shape(e2)
+            # scopes are re-attached by the object loaders, not by the expression loader: compare everything else
+            def drop_scope(x: object) -> object:
+                if isinstance(x, dict):
+                    return {k_: (None if k_ == "parent" and v_ == "scope" else drop_scope(v_)) for k_, v_ in x.items()}
+                return [drop_scope(y) for y in x] if isinstance(x, list) else x
+            ok = drop_scope(before) == drop_scope(after) and it4._str(e1) == (it4._str(e2) if isinstance(e2, Obj) else e2)
+            detail = "" if ok else f": written {drop_scope(before)}, read back {drop_scope(after)}"
+        except Raised as r:
+            ok, detail = False, f": raises {r.exc}"
+        n4 += 1
+        ctx.ob("R4", f"expression|{src_}", ok, f"`{src_}` survives as_dict -> JSON -> decoder with every field and every link between the parts of dotted names{detail}", where(ead))
+    ctx.expect_min("R4", n4, 100)
 
     # ------------------------------------------------------------------ R5
     ctx.rule("R5", "sets are encoded sorted; JSONEncoder.default uses as_dict(full=self.full); as_json and both arms of the CLI dump serialise "
